@@ -1,0 +1,81 @@
+//go:build verif
+
+package packetlimiter
+
+// Verification export hooks for property C34 (rate limiters) — /verif/harness/cmd/c34.
+// Compiled only with `-tags verif`. Nothing here is used by gate itself.
+
+import "time"
+
+// VerifCounterState is a copy of a counter's fields.
+type VerifCounterState struct {
+	Interval int64
+	Times    []int64
+	Counts   []int64
+	Head     int
+	Tail     int
+	Total    int64
+	MinTime  int64
+}
+
+func verifCounterState(c *counter) *VerifCounterState {
+	if c == nil {
+		return nil
+	}
+	return &VerifCounterState{
+		Interval: c.interval,
+		Times:    append([]int64(nil), c.times...),
+		Counts:   append([]int64(nil), c.counts...),
+		Head:     c.head,
+		Tail:     c.tail,
+		Total:    c.total,
+		MinTime:  c.minTime,
+	}
+}
+
+// VerifState returns copies of the packet and byte counters (nil when that dimension is off).
+func (l *Limiter) VerifState() (packets, bytes *VerifCounterState) {
+	if l == nil {
+		return nil, nil
+	}
+	l.mu.Lock()
+	defer l.mu.Unlock()
+	return verifCounterState(l.packets), verifCounterState(l.bytes)
+}
+
+// VerifAccountAt is Account with the clock supplied by the caller: the same locked body, calling
+// the same unexported helpers (updateAndAdd, rate), with `now` instead of time.Now().UnixNano().
+// The harness also drives Account itself and compares (cmd/c34, AccountCase).
+func (l *Limiter) VerifAccountAt(bytes int, now int64) bool {
+	if l == nil {
+		return true
+	}
+	l.mu.Lock()
+	defer l.mu.Unlock()
+	if l.packets != nil {
+		l.packets.updateAndAdd(1, now)
+		if l.packets.rate() > float64(l.packetsPerSecond) {
+			return false
+		}
+	}
+	if l.bytes != nil {
+		l.bytes.updateAndAdd(int64(bytes), now)
+		if l.bytes.rate() > float64(l.bytesPerSecond) {
+			return false
+		}
+	}
+	return true
+}
+
+// VerifCounter exposes the unexported counter on its own.
+type VerifCounter struct{ c *counter }
+
+func VerifNewCounter(intervalNanos int64) *VerifCounter {
+	return &VerifCounter{c: newCounter(time.Duration(intervalNanos))}
+}
+func (v *VerifCounter) UpdateAndAdd(count, now int64) { v.c.updateAndAdd(count, now) }
+func (v *VerifCounter) Expire(now int64)              { v.c.expire(now) }
+func (v *VerifCounter) Add(now, count int64)          { v.c.add(now, count) }
+func (v *VerifCounter) Sum() int64                    { return v.c.sum() }
+func (v *VerifCounter) Rate() float64                 { return v.c.rate() }
+func (v *VerifCounter) State() *VerifCounterState     { return verifCounterState(v.c) }
